@@ -81,7 +81,25 @@ pub fn run_cases(engine: &str, params: &Value, cases: &[Value], timeout_s: u64) 
         .collect();
 
     let mut child_pids: Vec<u32> = vec![];
+    // A change that makes a whole class of cases hang or kill their worker must not turn a check into an hours-long
+    // run (every such case costs a watchdog period): after this many bad cases in one batch the rest is not run.
+    let max_bad: usize = std::env::var("VERIF_MAX_BAD_CASES").ok().and_then(|s| s.parse().ok()).unwrap_or(24);
+    let mut bad_cases = 0usize;
+    let mut gave_up = false;
     loop {
+        if bad_cases > max_bad && !gave_up {
+            gave_up = true;
+            for sh in shards.iter_mut() {
+                if !sh.done {
+                    if let Some(ch) = sh.child.as_mut() {
+                        let _ = ch.kill();
+                        let _ = ch.wait();
+                        child_pids.push(ch.id());
+                    }
+                    sh.done = true;
+                }
+            }
+        }
         let mut all_done = true;
         for sh in shards.iter_mut() {
             if sh.done {
@@ -97,6 +115,7 @@ pub fn run_cases(engine: &str, params: &Value, cases: &[Value], timeout_s: u64) 
                     } else {
                         // died or hung on a case: restart on the remaining ones
                         sh.restarts += 1;
+                        bad_cases += 1;
                         if sh.restarts > cases.len() + 5 {
                             sh.done = true;
                         } else {
@@ -150,7 +169,8 @@ pub fn run_cases(engine: &str, params: &Value, cases: &[Value], timeout_s: u64) 
         let _ = std::fs::remove_file(&sh.outfile);
     }
     let _ = std::fs::remove_file(&casefile);
-    res.into_iter().map(|r| r.unwrap_or(CaseRes::Crashed("no result recorded".into()))).collect()
+    let missing = if gave_up { format!("not run: more than {max_bad} cases of this batch hung or killed their worker") } else { "no result recorded".to_string() };
+    res.into_iter().map(|r| r.unwrap_or(CaseRes::Crashed(missing.clone()))).collect()
 }
 
 /// If the last started case of an outfile has no result line, record it as crashed.
